@@ -223,29 +223,105 @@ class Piece:
             kw, ko = lps[ordinal - 1]
             self._add(toks[ko].start, toks[ko].start, "\n" + text + "\n", "insert")
         self.nloops = len(lps)
-        # text anchors
+        # anchors
         fstart, fend = toks[kb].start, toks[k1].end
         ftext = self.sf.text[fstart:fend]
-        for (where, snippet, occ, text) in fs.at:
+        for anchor in fs.at:
+            where, snippet, occ, text = anchor
+            if where == "loop_start":
+                # ("loop_start", None, k, text): right after the `{` of loop #k
+                if occ < 1 or occ > len(lps):
+                    raise Undecided(f"{fn.name}: loop #{occ} not found")
+                p = toks[lps[occ - 1][1]].end
+                self._add(p, p, "\n" + text + "\n", "insert")
+                continue
             pos = -1
             for _ in range(occ):
                 pos = ftext.find(snippet, pos + 1)
                 if pos < 0:
                     raise Undecided(f"{fn.name}: anchor `{snippet}` #{occ} not found")
-            p = fstart + pos + (len(snippet) if where == "after" else 0)
+            if where in ("before", "after"):
+                p = fstart + pos + (len(snippet) if where == "after" else 0)
+            elif where == "after_open":
+                kt = next(k for k in range(kb, k1 + 1) if toks[k].start >= fstart + pos)
+                while toks[kt].text != "{":
+                    if toks[kt].text in ("(", "["):
+                        kt = match_close(toks, kt)
+                    kt += 1
+                    if kt >= k1:
+                        raise Undecided(f"{fn.name}: no block after `{snippet}`")
+                p = toks[kt].end
+            elif where in ("before_stmt", "after_stmt"):
+                kt = next(k for k in range(kb, k1 + 1) if toks[k].start >= fstart + pos)
+                p = self._stmt_bound(kt, kb, k1, where == "before_stmt")
+            else:
+                raise Undecided(f"unknown anchor kind {where}")
             self._add(p, p, "\n" + text + "\n", "insert")
         # regex rewrites (closed rule names, logged)
         for rw in fs.rewrites:
             rule, pat, repl = rw[0], rw[1], rw[2]
             want = rw[3] if len(rw) > 3 else 1
             ms = list(re.finditer(pat, ftext, re.S))
-            if len(ms) != want:
+            if want is not None and len(ms) != want:
                 raise Undecided(f"{fn.name}: rewrite {rule} pattern matched {len(ms)} times, expected {want}")
             for m in ms:
                 new = m.expand(repl) if isinstance(repl, str) else repl(m)
                 self._add(fstart + m.start(), fstart + m.end(), new, rule)
         # ghost arguments at call sites
         self._ghost_calls(kb, k1, fn.name)
+
+    def _stmt_bound(self, kt, kb, k1, before):
+        """char position of the start (before=True) or end of the statement containing token kt"""
+        toks = self.sf.toks
+        if before:
+            k = kt
+            while k > kb + 1:
+                t = toks[k - 1]
+                if t.text in (";", "{"):
+                    break
+                if t.text == "}":
+                    # a preceding block-statement ends here unless it is `} else`-chained into ours
+                    break
+                if t.text in (")", "]"):
+                    # skip the balanced group backwards
+                    depth = 0
+                    j = k - 1
+                    while True:
+                        if toks[j].text in (")", "]", "}"):
+                            depth += 1
+                        elif toks[j].text in ("(", "[", "{"):
+                            depth -= 1
+                            if depth == 0:
+                                break
+                        j -= 1
+                    k = j
+                    continue
+                k -= 1
+            return toks[k].start
+        k = kt
+        while k < k1:
+            t = toks[k]
+            if t.text == ";":
+                return t.end
+            if t.text in ("(", "["):
+                k = match_close(toks, k) + 1
+                continue
+            if t.text == "{":
+                k = match_close(toks, k)
+                nxt = toks[k + 1].text
+                if nxt == "else":
+                    k += 2
+                    continue
+                if nxt == ";":
+                    return toks[k + 1].end
+                if nxt in (".", "?"):
+                    k += 1
+                    continue
+                return toks[k].end
+            if t.text == "}":
+                return toks[k - 1].end
+            k += 1
+        raise Undecided("statement end not found")
 
     def _ghost_calls(self, kb, k1, fname):
         toks = self.sf.toks
